@@ -668,6 +668,12 @@ impl Ctx {
 
         // ---- the head at the start of a slice of more than 4 GiB (zero pages behind it)
         if modes & M_GIANT != 0 && !base.panicked && !had_mismatch {
+            let mut vh: u64 = 0xcbf29ce484222325;
+            for b in [v.kind, v.cfg].iter().chain(v.buf.iter()) {
+                vh ^= *b as u64;
+                vh = vh.wrapping_mul(0x100000001b3);
+            }
+            let vh = vh >> 3;
             if !self.giant_tried {
                 self.giant_tried = true;
                 self.giant = crate::giant::Giant::new();
@@ -679,7 +685,7 @@ impl Ctx {
             const AFTER_ERR: [&[u8]; 4] = [b"", b"aaaaaaaaaaaaaaaaaaaaaaaa HTTP/1.1\r\n\r\n", b"aaaaaaaaaaaaaaaaaaaaaaaa\r\n\r\n", b"aaaaaaaaaaaaaaaaaaaaaaaa: x\r\n\r\n"];
             let head: Option<Vec<u8>> = if v.st == ST_E && v.kind != K_CHUNK {
                 let mut h = v.buf.clone();
-                h.extend_from_slice(AFTER_ERR[(idx % 4) as usize]);
+                h.extend_from_slice(AFTER_ERR[((vh >> 8) % 4) as usize]);
                 Some(h)
             } else if v.st != ST_P {
                 Some(v.buf.clone())
@@ -692,7 +698,9 @@ impl Ctx {
             };
             if let (Some(head), true) = (head, self.giant.is_some()) {
                 for t in 0..2u64 {
-                    let j = ((idx.wrapping_mul(2) + t).wrapping_mul(7) % 41) as usize;
+                    // (derived from the vector, not from its position in the file: a crash candidate
+                    // re-run alone sees the same slice)
+                    let j = ((vh.wrapping_mul(2) + t).wrapping_mul(7) % 41) as usize;
                     let total = crate::giant::FOUR_G + j;
                     let g = match self.giant.as_mut() { Some(g) => g, None => break };
                     let p2 = g.place(&head, total);
